@@ -120,9 +120,11 @@ func (v bindata) fill(data []byte, i int) int {
 }
 
 func (v *bindata) UnmarshalBinary(data []byte) error {
-	var length wuint16
-	_ = length.UnmarshalBinary(data)
-	if len(data) < int(length)+2 {
+	if len(data) < 2 {
+		return unmarshalErr(v, "", "missing data")
+	}
+	length := int(binary.BigEndian.Uint16(data))
+	if len(data) < length+2 {
 		return unmarshalErr(v, "", "missing data")
 	}
 	if length == 0 {
@@ -270,6 +272,9 @@ func (v wbool) fill(data []byte, i int) int {
 	return 1
 }
 func (v *wbool) UnmarshalBinary(data []byte) error {
+	if len(data) < 1 {
+		return ErrMissingData
+	}
 	switch data[0] {
 	case 0:
 		*v = wbool(false)
@@ -320,6 +325,9 @@ func (v *bits) ReadFrom(r io.Reader) (int64, error) {
 	return 1, v.UnmarshalBinary(data)
 }
 func (v *bits) UnmarshalBinary(data []byte) error {
+	if len(data) < 1 {
+		return ErrMissingData
+	}
 	*v = bits(data[0])
 	return nil
 }
@@ -353,6 +361,9 @@ func (v wuint16) fill(data []byte, i int) int {
 }
 
 func (v *wuint16) UnmarshalBinary(data []byte) error {
+	if len(data) < 2 {
+		return ErrMissingData
+	}
 	*v = wuint16(binary.BigEndian.Uint16(data))
 	return nil
 }
@@ -380,6 +391,9 @@ func (v wuint32) fill(data []byte, i int) int {
 }
 
 func (v *wuint32) UnmarshalBinary(data []byte) error {
+	if len(data) < 4 {
+		return ErrMissingData
+	}
 	*v = wuint32(binary.BigEndian.Uint32(data))
 	return nil
 }
@@ -397,6 +411,9 @@ func (v Ident) fill(data []byte, i int) int {
 }
 
 func (v *Ident) UnmarshalBinary(data []byte) error {
+	if len(data) < 1 {
+		return ErrMissingData
+	}
 	*v = Ident(data[0])
 	return nil
 }
